@@ -6,7 +6,8 @@ import Tbx.Spec.Nearest
 /-
 Driver for C12 (R-tree nearest-first iteration).
 
-ops:   Q <lat> <lon> | E <id> <lat> <lon>
+ops:   Q <lat> <lon> | E <id> <lat> <lon> | X <id> <lat1> <lon1> <lat2> <lon2> ...   (X: an element with several
+       sites; centre = first site, bbox = box of all sites, distance_to = minimum over the sites)
 obs (same order on both sides):
   P dist <id>:<bits> ...     input of the model (value of distance_to), echoed
   F order <id> ...           ids after the stable Z-order sort          (model: `zsort`)
@@ -30,7 +31,16 @@ open Tbx Tbx.Drv Tbx.RTree
 def B : Nat := Tbx.Gen.rtreeBranchingFactor
 def L : Nat := Tbx.Gen.rtreeLeafPackFactor
 
-abbrev Elem := Nat × Coord
+/-- id, centre (what the Z-order sort uses), bounding box (what the leaf boxes are built from) -/
+abbrev Elem := Nat × Coord × Box
+
+def _root_.Tbx.RTree.Box.containsBox (b o : Box) : Bool :=
+  decide (b.minLat ≤ o.minLat) && decide (o.maxLat ≤ b.maxLat) && decide (b.minLon ≤ o.minLon) && decide (o.maxLon ≤ b.maxLon)
+
+def pairsOf : List Int → Option (List Coord)
+  | [] => some []
+  | a :: b :: rest => (pairsOf rest).map (⟨a, b⟩ :: ·)
+  | [_] => none
 
 def tagged (tag : String) (items : List String) : String :=
   items.foldl (fun acc s => acc ++ " " ++ s) tag
@@ -137,8 +147,13 @@ def parseOps (ops : Array String) : Option Parsed := Id.run do
       | _, _ => return none
     | ["E", i, a, b] =>
       match i.toNat?, parseInt? a, parseInt? b with
-      | some id, some x, some y => es := es.push (id, ⟨x, y⟩)
+      | some id, some x, some y => es := es.push (id, ⟨x, y⟩, Box.ofCoord ⟨x, y⟩)
       | _, _, _ => return none
+    | "X" :: i :: rest =>
+      -- an element with several sites: centre = first site, bbox = box of all sites
+      match i.toNat?, (allSome (rest.map parseInt?)).bind pairsOf with
+      | some id, some (c0 :: sites) => es := es.push (id, c0, Box.union ((c0 :: sites).map Box.ofCoord))
+      | _, _ => return none
     | _ => return none
   return q.map fun qq => ⟨qq, es⟩
 
@@ -171,9 +186,10 @@ def handle (c : Case) : CaseOut := Id.run do
   let sortedIds := ids.mergeSort (fun a b => decide (a ≤ b))
   let distinct := (sortedIds.zip (sortedIds.drop 1)).all fun ab => ab.1 != ab.2
   if !distinct then return { model := #[], verdict := .skip "element ids are not distinct" }
-  if !(p.elems.all fun e => inI32 e.2.lat && inI32 e.2.lon) || !(inI32 p.q.lat && inI32 p.q.lon) then
+  if !(p.elems.all fun e => inI32 e.2.2.minLat && inI32 e.2.2.minLon && inI32 e.2.2.maxLat && inI32 e.2.2.maxLon)
+      || !(inI32 p.q.lat && inI32 p.q.lon) then
     return { model := #[], verdict := .skip "coordinate outside i32" }
-  let coordOf : Std.HashMap Nat Coord := p.elems.foldl (fun m e => m.insert e.1 e.2) {}
+  let boxOf : Std.HashMap Nat Box := p.elems.foldl (fun m e => m.insert e.1 e.2.2) {}
   -- ---------------------------------------------------------------- inputs supplied by the hooks
   let distItems := (lineItems c.impl "P dist").bind fun ws => allSome (ws.map parsePair)
   let nprioItems := (lineItems c.impl "P nprio").bind fun ws => allSome (ws.map (·.toNat?))
@@ -190,7 +206,7 @@ def handle (c : Case) : CaseOut := Id.run do
   if nprio.any (· > maxFiniteBits) then
     return { model := #[], verdict := .skip "a box priority is not a finite non-negative double" }
   -- ---------------------------------------------------------------- model
-  let sorted : List Elem := zsort (·.2) p.elems.toList
+  let sorted : List Elem := zsort (·.2.1) p.elems.toList
   let mut out : Array String := #[]
   out := out.push (tagged "P dist" (showSeq distL))
   out := out.push (tagged "F order" (sorted.map fun e => toString e.1))
@@ -202,7 +218,7 @@ def handle (c : Case) : CaseOut := Id.run do
   match bulkLoad B L sorted with
   | none => modelNote := "model-out-of-fuel (bulk loader)"
   | some t =>
-    let leafBoxes : Array Box := (t.leaves.map fun lf => Box.union (lf.map fun e => Box.ofCoord e.2)).toArray
+    let leafBoxes : Array Box := (t.leaves.map fun lf => Box.union (lf.map fun e => e.2.2)).toArray
     let nodesA := t.nodes.toArray
     let hk : Hook := ⟨t.leaves.length, nodesA, t.ends, nprio⟩
     let mut nbox : Array Box := #[]
@@ -296,7 +312,7 @@ def handle (c : Case) : CaseOut := Id.run do
           let lboxA := lbox.toArray
           let okL (lsz : Nat) : Bool :=
             nl == ceilDiv n lsz && (List.range nl).all fun j =>
-              Box.union ((leafSlice lsz orderA j).map fun i => Box.ofCoord (coordOf.getD i default)) == lboxA.getD j default
+              Box.union ((leafSlice lsz orderA j).map fun i => boxOf.getD i default) == lboxA.getD j default
           let lszO := (leafSizeCandidates n nl).find? okL
           if let (true, true, some lsz) := (okOrder, nprio.size == nodes.length, lszO) then
             attributable := true
@@ -332,7 +348,7 @@ def handle (c : Case) : CaseOut := Id.run do
                     -- and the box must really enclose the element: then `min_distance(box) > distance(element)`
                     -- says that the corner minimum is not a lower bound of the distance to the box (D7)
                     if a + 1 < nprio.size && nprio.getD a 0 > pr.2 && found.isNone
-                        && a < nboxA.size && (nboxA.getD a default).contains (coordOf.getD pr.1 default) then
+                        && a < nboxA.size && (nboxA.getD a default).containsBox (boxOf.getD pr.1 default) then
                       found := some a
                     cur := par.getD a none
                   | none => pure ()
